@@ -115,8 +115,17 @@ def main(run):
     run.regen()
     run.prove()
     run.run_findings()
+    # "the answer equals the device's actual state": first without any concurrency - buffered and written
+    # configuration histories on the real handler, ch_is_enabled / ch_div_get compared with the device and the Coq
+    # model after every call (the histories of C07)
+    if run.build_model():
+        from . import c07
+        for what, c, m in run.differential(c07.cases(run, count=14 if not run.thorough else 120)):
+            run.violation(what, {"call": c["cmd"][:3000], "implementation": c["impl"][:3000], "model": m[:3000]})
     rng = common.Rng(run.seed)
     for i in range(10 if not run.thorough else 120):
+        if run.violations:
+            break
         n = 2 + i % 3
         seed_state = rng.randrange(1 << 30)
         r = scenario(run, common.Rng(seed_state), n)
